@@ -496,6 +496,36 @@ def updateEntriesF (fx : Fixes) (orc : Oracle) (flt : Str → Bool) : List Entry
     else updateEntriesF fx orc flt es
       (acc ++ [e.corr (if fx.keepCstFiltered && e.attrs.cst then e.output else formatSexp fx e.output)])
 
+/-- Does this language iteration set `has_parse_errors` (mismatch whose rendering shows an error)? -/
+def setsParseErrors (e : Entry) (a : Actual) : Bool :=
+  match e.attrs.expect with
+  | .error => false
+  | _ =>
+    let actual := if e.attrs.cst then a.cst else if e.hasFields then a.sexpFields else a.sexpPlain
+    actual != e.output && (containsSub strERROR actual || containsSub strMISSING actual)
+
+/-- The languages loop for the status: `none` = `Language not found` (the run returns `Err` at once),
+`some (hpe, stopped)` otherwise. -/
+def statusLangs (fx : Fixes) (orc : Oracle) (e : Entry) : List Str → Bool → Option (Bool × Bool)
+  | [], hpe => some (hpe, false)
+  | l :: ls, hpe =>
+    match orc l e.input with
+    | none => none
+    | some a =>
+      let hpe := hpe || setsParseErrors e a
+      if (updateLang fx e a).2 then some (hpe, true) else statusLangs fx orc e ls hpe
+
+/-- Result of `run_tests_at_path(update = true)` on one file: `true` = `Ok`.  In update mode the run is `Err`
+iff a language is not registered or some run test is mismatched with an error in its rendering. -/
+def updateStatus (fx : Fixes) (orc : Oracle) (flt : Str → Bool) : List Entry → Bool → Bool
+  | [], hpe => !hpe
+  | e :: es, hpe =>
+    if !flt e.name || e.attrs.expect == .skip || !e.attrs.platform then updateStatus fx orc flt es hpe
+    else match statusLangs fx orc e e.attrs.languages hpe with
+      | none => false
+      | some (hpe, true) => !hpe
+      | some (hpe, false) => updateStatus fx orc flt es hpe
+
 /-- `tree-sitter test --update` with a name filter on one corpus file. -/
 def updateFileF (fx : Fixes) (os : Str) (orc : Oracle) (flt : Str → Bool) (content : Str) : Str :=
   match parseFile os content with
